@@ -40,7 +40,6 @@ MUTANTS = {
         ("u-sets-connect", "src/pdsh/opt.c", "            opt->command_timeout = atoi(optarg);", "            opt->connect_timeout = atoi(optarg);"),
         ("timeout-check-dropped", "src/pdsh/opt.c", "        if (opt->command_timeout < 0) {", "        if (0) {"),
         ("connect-check-gt", "src/pdsh/opt.c", "        if (opt->connect_timeout < 0) {", "        if (opt->connect_timeout <= 0) {"),
-        ("default-fanout-64", "src/pdsh/dsh.h", "DFLT_FANOUT", None),   # placeholder, replaced below
         ("username-off-by-one", "src/pdsh/opt.c", "    if (strlen (src) > maxlen)", "    if (strlen (src) > maxlen + 1)"),
         ("trailing-garbage-ok", "src/pdsh/opt.c", "    if (errno || (*p != '\\0'))\n        return (-1);", "    if (errno)\n        return (-1);"),
         ("rcmd-env-wins", "src/pdsh/opt.c", "        case 'R':\n            opt->rcmd_name = Strdup(optarg);",
@@ -74,8 +73,6 @@ def main():
     for m in MUTANTS[prop]:
         name, edits = m[0], list(m[1:])
         if only and name not in only:
-            continue
-        if edits[2] is None:
             continue
         copy = "/var/tmp/optexit-mutant-%s-%s" % (prop, name)
         shutil.rmtree(copy, ignore_errors=True)
